@@ -3,7 +3,8 @@ import XvcIgnore.Glob
   # Ignore patterns (model of walker/src/pattern.rs, walker/src/ignore_rules.rs and
   `content_to_patterns` of walker/src/lib.rs)
 
-  The model mirrors the code **with the F8 repair** (patches/C09-F8.patch): a line without an inner `/`
+  The model mirrors the code **with the F8 repair** (patches/C09-F8.patch) and **with the F32 repair**
+  (patches/F32-ignore-directory-literal.patch: the directory part of a glob is escaped): a line without an inner `/`
   that comes from an ignore file in a sub-directory gets the glob `<dir>/**/<line>` instead of
   `**/<line>`; for the root ignore file and for global patterns nothing changes.
 -/
@@ -46,10 +47,19 @@ def currentDir : Source → Str
     let p := if parent.head? = some '/' then parent else '/' :: parent
     if p.getLast? = some '/' then p.dropLast else p
 
+/-- `escape_glob` (repair F32, patches/F32-ignore-directory-literal.patch): the characters that have a meaning
+    in a glob get a backslash, so that a directory name is read as a literal -/
+def escapeGlob : Str → Str
+  | [] => []
+  | c :: r =>
+    if c = '*' ∨ c = '?' ∨ c = '[' ∨ c = ']' ∨ c = '{' ∨ c = '}' ∨ c = '!' ∨ c = '\\' then '\\' :: c :: escapeGlob r
+    else c :: escapeGlob r
+
 /-- `transform_pattern_for_glob` (with the F8 repair: `Anywhere` patterns of a non-root source are
-    prefixed with the source directory) -/
+    prefixed with the source directory; and with the F32 repair: the directory part is escaped) -/
 def transformPatternForGlob (line cur : Str) (relDir : Option Str) (dirOnly : Bool) : Str :=
-  match dirOnly, relDir with
+  let cur := escapeGlob cur
+  match dirOnly, relDir.map escapeGlob with
   | false, none => if cur.isEmpty then "**/".toList ++ line else cur ++ "/**/".toList ++ line
   | false, some d => d ++ "/**/".toList ++ line
   | true, none =>
